@@ -3,7 +3,7 @@
    Equality of the directory fields across entry points "after normalisation" depends on the
    path algebra and is established by the correspondence run (the model's path functions are
    compared with std::path on every run), not by a theorem. *)
-From RV Require Import Model.Config Proofs.ConfigFacts.
+From RV Require Import Model.Config Proofs.ConfigFacts Proofs.ConfigPaths.
 
 Section C20.
 Variable compiles : string -> bool.
@@ -74,6 +74,22 @@ Eval cbv in "ASSUMPTIONS-OF C20_bad_pattern_rejected"%string. Print Assumptions 
 Eval cbv in "ASSUMPTIONS-OF C20_unknown_option_ignored"%string. Print Assumptions C20_unknown_option_ignored.
 Eval cbv in "ASSUMPTIONS-OF C20_wrong_type_rejected"%string. Print Assumptions C20_wrong_type_rejected.
 Eval cbv in "ASSUMPTIONS-OF C20_file_and_dict_agree"%string. Print Assumptions C20_file_and_dict_agree.
+
+(** Absolute nodes / classes directories are taken as they stand by every entry point (the option
+    setter behind config file and dict stores them unchanged, the constructor their lexical normal
+    form): the inventory path plays no part (Proofs/ConfigPaths.v). *)
+Theorem C20_absolute_directories_are_kept :
+  forall d, is_abs d = true ->
+    (forall c p, set_option c p "nodes_uri" (YStr d) = Ok (upd_nodes c d)) /\
+    (forall c p, set_option c p "classes_uri" (YStr d) = Ok (upd_classes c d)) /\
+    (forall i cl g c, config_new i (Some d) cl g = Ok c -> cf_nodes c = to_lexical_normal d true) /\
+    (forall i n g c, config_new i n (Some d) g = Ok c -> cf_classes c = to_lexical_normal d true).
+Proof. exact absolute_directories_are_kept. Qed.
+Eval cbv in "ASSUMPTIONS-OF C20_absolute_directories_are_kept"%string. Print Assumptions C20_absolute_directories_are_kept.
+
+Example C20_absolute_directory_nonvacuous :
+  exists c, config_new (Some "inv") (Some "/srv/n") None None = Ok c /\ cf_nodes c = "/srv/n"%string /\ cf_classes c = "inv/classes"%string.
+Proof. eexists. split; [reflexivity | split; reflexivity]. Qed.
 
 (** Non-vacuity: a history with a failing setter call keeps reported = applied. *)
 Example C20_nonvacuous :
